@@ -19,12 +19,12 @@ theorem new_ok    : (new : M (State α)) = .ok (s0 : State α) := by
 
 @[simp] def abs  (s : State α) : Option α := s.out
 
-theorem upd_eq  (s : State α) (x : α)  :
+theorem upd_eq   (s : State α) (x : α)  :
     (update  s x).map (abs ) = (echoV).upd (abs  s) x := by
   simp only [update, wrap, mapV, binop, echoV, abs]; gen_tie
 theorem upd_cfg  (s s' : State α) (x : α) : update  s x = .ok s' → True := by
   simp only [update, echoV]; gen_tie
-theorem last_eq  (s : State α)  : last  s = (echoV).last (abs  s) := by
+theorem last_eq   (s : State α)  : last  s = (echoV).last (abs  s) := by
   simp only [last, wrap, mapV, binop, echoV, abs]; gen_tie
 
 def sim    : Sim (mkView (s0 : State α) (update ) (last )) (echoV) where
